@@ -687,6 +687,10 @@ func genRelCase(focus string) func(t *rapid.T) RelCase {
 				for j := 0; j < k; j++ {
 					b.Removes = append(b.Removes, rapid.IntRange(0, relUniverse-1).Draw(t, "rm"))
 				}
+				if rapid.IntRange(0, 2).Draw(t, "rmLeading") == 0 {
+					// the proposer together with the first-listed voter(s): members 0, 1[, 2] of the genesis order
+					b.Removes = append([]int{0, 1}, b.Removes...)
+				}
 			}
 			ntx := rapid.SampledFrom([]int{0, 1, 1, 1, 2}).Draw(t, "ntx")
 			for j := 0; j < ntx; j++ {
@@ -694,13 +698,16 @@ func genRelCase(focus string) func(t *rapid.T) RelCase {
 				if focus == "C16" {
 					kinds = []string{"vote", "vote", "newvoter", "newvoter", "newvoter", "accept", "accept", "replay", "approve"}
 				}
+				if focus == "C01" {
+					kinds = []string{"vote", "vote", "vote", "vote", "newvoter", "newvoter", "accept"}
+				}
 				rt := RelTx{Kind: rapid.SampledFrom(kinds).Draw(t, "txKind"), Ref: rapid.IntRange(0, 50).Draw(t, "ref")}
 				switch rt.Kind {
 				case "old-epoch":
 					rt.Vote = VoteSpec{Kind: rapid.IntRange(0, numVoteKinds-1).Draw(t, "oeKind"), BodyArg: rapid.IntRange(0, 7).Draw(t, "oeArg"), BitmapBytes: -1, Class: "honest-all"}
 				case "vote":
 					rt.Vote = genVoteSpec(t, c.N)
-					if rapid.IntRange(0, 2).Draw(t, "honestBias") > 0 {
+					if rapid.IntRange(0, 2).Draw(t, "honestBias") > 0 && (focus != "C01" || rapid.Bool().Draw(t, "honestBias2")) {
 						rt.Vote.Class, rt.Vote.Marks, rt.Vote.Signers = "honest-all", nil, nil // resolved against the live group
 						rt.Vote.BitmapBytes = -1
 						rt.Vote.DocChain, rt.Vote.DocSeqDelta, rt.Vote.DocEpDelta, rt.Vote.DocMethod, rt.Vote.DocProposer = false, 0, 0, 0, 0
